@@ -18,7 +18,7 @@ Qed.
    (2) and the loop goes on *)
 Lemma gen_pp_ineligible : forall r (upd_err : bool),
   g_pp_ineligible_body (Z.of_N (r_state r)) (r_elig r) upd_err =
-  if inelig_ok r then (if upd_err then ([1; 2], Cont) else ([1; 3], Fall)) else ([], Fall).
+  if inelig_ok r then (if upd_err then ([1; 2], Fall) else ([1; 3], Fall)) else ([], Fall).
 Proof.
   intros. unfold g_pp_ineligible_body, inelig_ok.
   destruct (r_elig r), upd_err; gen_split; cbn [andb negb]; try reflexivity; try (exfalso; lia).
@@ -29,7 +29,7 @@ Qed.
 Lemma gen_pp_retry : forall r (found enq_ok : bool),
   g_pp_retry_body (Z.of_N (r_state r)) (r_retry r) found enq_ok =
   if retry_fail r then
-    (if found then (if enq_ok then ([1; 3; 4; 5], Fall) else ([1; 3; 5], Fall)) else ([1; 2], Cont))
+    (if found then (if enq_ok then ([1; 3; 4; 5], Fall) else ([1; 3; 5], Fall)) else ([1; 2], Fall))
   else ([], Fall).
 Proof.
   intros. unfold g_pp_retry_body, retry_fail.
@@ -48,7 +48,7 @@ Qed.
 
 Lemma gen_pp_payloadOf_body : forall p_wid r_wid p_blk r_blk p_hash r_hash found,
   g_pp_payloadOf_body p_wid r_wid p_blk r_blk p_hash r_hash found =
-  if negb (p_wid =? r_wid) then ([], Cont)
+  if negb (p_wid =? r_wid) then ([], Fall)
   else if (p_blk =? r_blk) && (p_hash =? r_hash) then ([], RetO 1)
   else if found <? 0 then ([1], Fall) else ([], Fall).
 Proof.
@@ -85,5 +85,5 @@ Proof. intros [|] [|] [|] [|]; split; reflexivity. Qed.
    the builder returned are dropped *)
 Lemma gen_flow_filters : forall already empty : bool,
   g_proposal_filterer_body already = (if already then ([], Fall) else ([1], Fall)) /\
-  g_final_flow_tick_body empty = (if empty then ([1], Cont) else ([2], Fall)).
+  g_final_flow_tick_body empty = (if empty then ([1], Fall) else ([2], Fall)).
 Proof. intros [|] [|]; split; reflexivity. Qed.
